@@ -12,8 +12,9 @@ every combination of option values, the *actuals as written* go to the model, wh
 along `Client(...)` / `connect(...)` / `client_context(...)` -> `_connect_helper(...)` -> payload fields; CORR compares the
 model's fields with the decoded frames, PROP evaluates `Spec/ClientEntry.lean honoured` on the decoded frames.
     ECASE <id> <direct|context>
+    MID <name hex> <id>                                        one per module name the context registers (`get_context().MID`)
     CALL <ctor|connect|ctx> P <val>.. K <name> <val> ..        val: b0 | b1 | i<int> | s<hex> | n
-    OPT <logger> <daemon> <allow> <mod_id> <name hex|->        the options as the caller names them
+    OPT <logger> <daemon> <allow> <mod_id> <name hex|->        the options as the caller names them (no name given: -)
     IMPL <v2.logger> <v2.daemon> <v2.allow> <v2.mod_id> <v2.name hex|-> <v1.logger> <v1.daemon> | IMPL none <why>
     END"""
 from __future__ import annotations
@@ -24,6 +25,20 @@ import socket as _real_socket
 from typing import Any, Dict, List
 
 from . import priv as PV          # private state of Client objects, found on the object (not by name)
+
+
+class Hang(Exception):
+    """the code under test keeps polling the fake socket without coming back from one API call (an endless loop);
+    raised by the fakes after `TICK_LIMIT` select / recv calls within one case and recorded as that case's failure"""
+
+
+TICK_LIMIT = 200000
+
+
+def _tick(world):
+    world["ticks"] = world.get("ticks", 0) + 1
+    if world["ticks"] > TICK_LIMIT:
+        raise Hang("the call does not return: more than %d select/recv calls" % TICK_LIMIT)
 
 
 class _Sock:
@@ -48,6 +63,7 @@ class _Sock:
         return len(data)
 
     def recv_into(self, buf, nbytes=0, flags=0):
+        _tick(self.w)
         if nbytes == 0:
             nbytes = len(buf)
         chunk = self.w["inbuf"][:nbytes]
@@ -88,6 +104,7 @@ def _shims(world):
     class Sel:
         @staticmethod
         def select(r, w, x, timeout=None):
+            _tick(world)
             return (list(r) if (world["inbuf"] or world.get("eof")) else []), list(w), []
 
     class Tm:
@@ -140,6 +157,28 @@ def _ack_bytes(timecode: bool, dest: int) -> bytes:
     return bytes(h)
 
 
+def registered_mids() -> List[Any]:
+    """the module names the message-definition context registers, in dict order: [(name, id)]"""
+    from pyrtma.context import get_context
+    return [(str(k), int(v)) for k, v in get_context().MID.items()]
+
+
+def registered_static_id() -> int:
+    """a static module id the context registers a name for (core defs: DATA_LOGGER = 4, QUICK_LOGGER = 5); 12 if none"""
+    import pyrtma.core_defs as cd
+    ids = [i for _, i in registered_mids() if 0 < i < cd.DYN_MOD_ID_START]
+    return ids[-1] if ids else 12
+
+
+def names_allowed(name: str, mid: int) -> List[str]:
+    """the names that may arrive when the caller asked for `name` ('' = none given) on module id `mid`: the name itself;
+    without one, a name the context registers for a static id, else the empty name"""
+    if name:
+        return [name]
+    reg = [k for k, i in registered_mids() if i == mid and mid != 0]
+    return reg or [""]
+
+
 def check_entry_points() -> Dict[str, Any]:
     """returns {"cases": n, "failures": [ {entry, options, frames, what} ]}"""
     import pyrtma.client as CL
@@ -149,7 +188,8 @@ def check_entry_points() -> Dict[str, Any]:
     saved = _save(CL)
     try:
         for entry, logger, daemon, allow, name, mid, timecode in itertools.product(
-                ("connect", "connect_kw", "client_context"), (False, True), (False, True), (False, True), ("", "nm"), (0, 12), (False, True)):
+                ("connect", "connect_kw", "client_context"), (False, True), (False, True), (False, True), ("", "nm"),
+                (0, 12, registered_static_id()), (False, True)):
             if entry == "client_context" and daemon:
                 continue        # client_context has no daemon option
             world = {"sent": b"", "inbuf": _ack_bytes(timecode, mid or 117) * 4}
@@ -178,7 +218,7 @@ def check_entry_points() -> Dict[str, Any]:
             frames = _decode(world["sent"], timecode)
             v2 = [f for f in frames if f["type"] == cd.MT_CONNECT_V2]
             v1 = [f for f in frames if f["type"] == cd.MT_CONNECT]
-            want = dict(logger=int(logger), daemon=int(daemon), allow_multiple=int(allow), mod_id=mid, name=name)
+            want = dict(logger=int(logger), daemon=int(daemon), allow_multiple=int(allow), mod_id=mid)
             bad = []
             if len(v2) != 1 or len(v1) != 1 or frames.index(v2[0]) > frames.index(v1[0]):
                 bad.append("handshake is not CONNECT_V2 followed by CONNECT")
@@ -186,6 +226,9 @@ def check_entry_points() -> Dict[str, Any]:
                 for k, v in want.items():
                     if v2[0].get(k) != v:
                         bad.append(f"CONNECT_V2.{k} = {v2[0].get(k)!r}, the caller asked for {v!r}")
+                if v2[0].get("name") not in names_allowed(name, mid):
+                    bad.append(f"CONNECT_V2.name = {v2[0].get('name')!r}, the caller " +
+                               (f"asked for {name!r}" if name else f"gave none (default for id {mid}: {names_allowed(name, mid)})"))
                 for k in ("logger", "daemon"):
                     if v1[0].get(k) != want[k]:
                         bad.append(f"CONNECT.{k} = {v1[0].get(k)!r}, the caller asked for {want[k]!r}")
@@ -196,7 +239,8 @@ def check_entry_points() -> Dict[str, Any]:
                                  "frames": frames[:3], "what": b})
         # --- the same options through a *second* connect of the same Client object, however the first session ended
         for how, mid, allow, logger, timecode in itertools.product(
-                ("disconnect", "eof_on_read", "reset_on_send", "still_connected"), (0, 12), (False, True), (False, True), (False, True)):
+                ("disconnect", "eof_on_read", "reset_on_send", "still_connected"), (0, 12, registered_static_id()), (False, True),
+                (False, True), (False, True)):
             world = {"sent": b"", "inbuf": _ack_bytes(timecode, mid or 117) * 2}
             _install(CL, _shims(world))
             n += 1
@@ -382,15 +426,18 @@ def entry_model_cases() -> List[Dict[str, Any]]:
     out: List[Dict[str, Any]] = []
     saved = _save(CL)
     n = 0
+    mids = registered_mids()
+    mid_lines = [f"MID {_hexs(k)} {i}" for k, i in mids]
     try:
         for logger, daemon, allow, name, mid, tc in itertools.product((False, True), (False, True), (False, True),
-                                                                      ("", "nm", "a name with spaces"), (0, 12, 99), (False, True)):
+                                                                      ("", "nm", "a name with spaces"),
+                                                                      (0, 12, 99, registered_static_id()), (False, True)):
             for label, kind, calls in entry_shapes(logger, daemon, allow, name, mid, tc):
                 world = {"sent": b"", "inbuf": _ack_bytes(tc, mid or 117) * 4}
                 _install(CL, _shims(world))
                 cid = f"e{n}"
                 n += 1
-                lines = [f"ECASE {cid} {kind}"] + [_call_line(w, p, k) for w, (p, k) in calls.items()]
+                lines = [f"ECASE {cid} {kind}"] + mid_lines + [_call_line(w, p, k) for w, (p, k) in calls.items()]
                 lines.append(f"OPT {int(logger)} {int(daemon)} {int(allow)} {mid} {_hexs(name)}")
                 err = None
                 try:
